@@ -206,8 +206,10 @@ Definition run (c : cfg) (evs : list ev) : st := fold_left (step_st c) evs init.
 (* ---- script interface ----
    script = [cancel; dyn; n; T; t_0 .. t_(n-1); (op a b)* ]
      cancel: bit 0 = cancel_running_future(true) (the other bits only select, in the harness, the
-     builder call order and through which service value / clone each call is made: the limiter
-     keeps no state between calls, so the model ignores them);
+     builder call order, through which service value / clone each call is made, and which callers'
+     inner calls exhaust tokio's cooperative budget at every poll: the limiter keeps no state
+     between calls and must treat a budget-hungry inner call like any other, so the model
+     ignores them);
      dyn: bit 0: 0 = timeout_duration(T), 1 = timeout_fn(request i -> t_i); bit 1: the time
      unit of the script is the microsecond (timer ticks every 1000 units) instead of the
      millisecond; callers 0..n-1
